@@ -126,6 +126,7 @@ type mitm struct {
 	fwdReq    proto4.Object // request as forwarded to the host (nil: none)
 	dlvR1     proto4.Object // host inputs as delivered to the renter
 	fwdR2     proto4.Object // signatures as forwarded to the host
+	gotR3     proto4.Object // final response as the host sent it
 	dlvR3     proto4.Object // final response as delivered to the renter
 	hostErr   string        // RPC error the host answered with
 	done      chan struct{}
@@ -253,6 +254,9 @@ func (m *mitm) relay(cli net.Conn) {
 		m.relayErr(cli, err)
 		return
 	}
+	m.mu.Lock()
+	m.gotR3 = cloneObject(m.kind, m.partial, 3, wr.r3)
+	m.mu.Unlock()
 	if m.plan.Cut == 4 {
 		return
 	}
